@@ -695,3 +695,52 @@ def who4_envelope(ctx):
     for body, blk, t in P.call_sites(lambda f: re.search(r'<disk_store::(file_writer::FileBlobWriter|gcs_writer::GCSBlobWriter|azure_writer::AzureBlobWriter) as .*BlobWriter>::(load|store)$', f or '') is not None):
         ctx.violation('WHO-4', '%s|direct-backend-call' % body.name,
                       'backend load/store called directly, bypassing the envelope', where(t))
+
+
+# ------------------------------------------------------------------------------------ ORD-11 / LIT-3
+def ord11_files_before_catalogue_entry(ctx):
+    ctx.rule('ORD-11', 'partition files are written before the in-memory catalogue learns about the '
+                       'partition (a catalogue persisted in between must not reference a missing file)',
+             floor=3)
+    P = ctx.P
+    n = 0
+    for b in P.fn_bodies():
+        if b.crate != 'locustdb' or not b.name.startswith('disk_store::storage::'):
+            continue
+        ins = calls_matching(b, lambda x: x.endswith('MetaStore::insert_partition'))
+        if not ins:
+            continue
+        wr = calls_matching(b, S + 'write_subpartitions')
+        cfg = CFG(b)
+        for (ib, it) in ins:
+            n += 1
+            ctx.check('ORD-11', '%s|write-before-insert' % b.name,
+                      bool(wr) and any(cfg.dominates(wb.id, ib.id) for (wb, wt) in wr),
+                      'write_subpartitions dominates MetaStore::insert_partition', where(it))
+    ctx.require(n >= 3, 'ORD-11: fewer than 3 insert_partition sites (%d)' % n)
+
+
+def lit3_wal_file_names(ctx):
+    ctx.rule('LIT-3', 'log segment file names: writer, deleters and the recovery filter use the same '
+                      'suffix', floor=3)
+    ast = ctx.ast
+    f = 'disk_store/storage.rs'
+    from mirlib.astlib import strings_in
+    sites = {}
+    for qual in ('Storage::persist_wal_segment', 'Storage::delete_wal_segments'):
+        fn = ast.fn(qual, f)
+        fm = sorted({s for s in strings_in(fn, ast) if 'wal' in s and '{' in s})
+        sites[qual] = fm
+    rec = ast.fn('Storage::recover', f)
+    ext = sorted({s for s in strings_in(rec, ast) if s in ('wal', '.wal')})
+    ctx.check('LIT-3', 'wal|writer-and-deleter-format', sites['Storage::persist_wal_segment'] == ['{}.wal'] and
+              sites['Storage::delete_wal_segments'] == ['{}.wal'],
+              'persist_wal_segment formats %s, delete_wal_segments formats %s'
+              % (sites['Storage::persist_wal_segment'], sites['Storage::delete_wal_segments']), 'src/' + f)
+    ctx.check('LIT-3', 'wal|recovery-filter-suffix', ext in (['wal'], ['.wal']),
+              'recovery accepts files with suffix %s, the writer produces `<id>.wal`' % ext, 'src/' + f)
+    pf = ast.fn('partition_filename', f)
+    fm = [s for s in strings_in(pf, ast) if '{' in s]
+    ctx.check('LIT-3', 'partition|single-name-function', len(fm) == 1 and fm[0].endswith('.part'),
+              'partition files are named by one function (%s) used by writer, deleter and loader '
+              '(FLW-10)' % fm, 'src/' + f)
